@@ -296,6 +296,10 @@ func vfC07Scenarios(thorough bool) []*vfGWScenario {
 	// S3: opportunistic grafting every tick
 	mk("oppgraft", "d2og", p6[:5], append(connAll(p6[:5], true), "join:t"),
 		[]string{"hb", "score:a:2", "score:c:2", "score:e:2", "score:b:-1", "graft:e:t", "prune:a:t", "adv:5000"}, d)
+	// S3b: zero periods for opportunistic grafting / direct connect (accepted by parameter validation)
+	for _, ps := range []string{"d2og0", "d2dc0"} {
+		mk("zero-period-"+ps, ps, p4, connAll(p4, true), []string{"join:t", "leave:t", "hb", "graft:a:t", "prune:a:t", "score:a:-1", "score:b:2"}, d-1)
+	}
 	// S4: fanout -> join promotion, two topics
 	if thorough {
 		mk("grow-d4", "d4", p6, connAll(p6, true),
